@@ -622,5 +622,5 @@ Non-trivial = the automaton has a match state whose list contains an inherited (
     strategy: c16_strategy,
     check: c16_check,
     extra: None,
-    floors: &[("inherited-match-present", 3_000), ("kind:standard", 3_000), ("prefilter:on", 5_000)],
+    floors: &[("inherited-match-present", 2_000), ("kind:standard", 3_000), ("prefilter:on", 5_000)],
 };
